@@ -640,10 +640,10 @@ func genReaderScenario(r *rand.Rand, ver int) *rdScenario {
 func (sc *rdScenario) stallAfter() time.Duration {
 	for _, f := range sc.Faults {
 		if f.Kind == "err1h" {
-			return 13 * time.Second
+			return 18 * time.Second
 		}
 		if f.Kind == "stall" {
-			return 6 * time.Second // ReadBatchTimeout (2 s) ends the round; generous for a loaded machine
+			return 8 * time.Second // ReadBatchTimeout (2 s) ends the round; generous for a loaded machine
 		}
 	}
 	return rdStallAfter
